@@ -19,6 +19,9 @@ func c12Configs(thorough bool) []lockCfg {
 		{Name: "powers-4-1-1", Powers: []uint64{4, 1, 1}, MaxValidators: 3, InitialReward: bigReward, Remain: "5000000000000000000", Candidates: 4},
 		{Name: "powers-1-2-small", Powers: []uint64{1, 2}, MaxValidators: 3, InitialReward: 10, Remain: "25", Candidates: 3},
 		{Name: "single", Powers: []uint64{1}, MaxValidators: 1, InitialReward: 10, Remain: "0", Candidates: 2},
+		// the emission has already halved to nothing (1 >> 1 at height 2): gas fees and grants must
+		// be taken in and shared all the same
+		{Name: "emission-ended", Powers: []uint64{1, 2}, MaxValidators: 3, InitialReward: 1, Remain: "9", Candidates: 3},
 	}
 	if thorough {
 		cs = append(cs,
